@@ -12,7 +12,7 @@ RULE = ("all maps with <= 4 distinct keys over a 12-key alphabet mixing int, uin
         "string keys (no int/uint twins inside one map) and non-null values, given as literals and as context "
         "variables, queried with every alphabet key and the int/uint twin (and the wrap-around alias) of every "
         "numeric key through `k in m`, m.contains(k), m[k], m.k and has(m.k); all lists of length <= 5 with every "
-        "index in -2..len+1 and the i64 extremes; random strings / lists for size(a+b) == size(a)+size(b), order "
+        "index in -2..len+1 and the i64 extremes, membership asked of list variables, list literals and literals of variables; size() of strings with one multi-byte character at every byte offset 0-40 and every two-way split of them; random strings / lists for size(a+b) == size(a)+size(b), order "
         "preservation of +, operands re-read unchanged, and `x in l` iff some element equals x; oracle: a Python "
         "dict keyed by numeric value; non-trivial = map with >= 2 keys or a twin query, index outside 0..len; "
         "distinct = distinct (source, context)")
